@@ -7,6 +7,8 @@ require (
 	verifharness v0.0.0
 )
 
+require golang.org/x/sync v0.0.0-20210220032951-036812b2e83c // indirect
+
 replace github.com/bradenaw/juniper => /repo
 
 replace verifharness => ../harness
